@@ -337,7 +337,7 @@ func (g *replayGen) samePkg(t types.Type) bool {
 
 // ---- contract clause -> Go
 
-var untranslatable = regexp.MustCompile(`\b(ghost\w*|uf[A-Z]\w*|fresh|disjoint|sameSlice|suffixOf|sent|sentByte|sentMsgs|rpos|inByte|atomic|ksByte|ksPos|length|before|released|samearray)\b`)
+var untranslatable = regexp.MustCompile(`\b(ghost\w*|uf[A-Z]\w*|fresh|disjoint|sameSlice|suffixOf|sent|sentByte|sentMsgs|rpos|inByte|atomic|ksByte|ksPos|length|before|released|samearray|offsetOf)\b`)
 
 func (g *replayGen) clauseToGo(e ast.Expr, params map[string]bool, resultNames map[string]int, inOld bool) (string, error) {
 	var conv func(e ast.Expr, inOld bool) (string, error)
